@@ -128,7 +128,8 @@ func (m *LedgerModel) containsTx(i int, txid []byte) bool {
 
 // LedgerMachine couples a real ledger with the model.
 type LedgerMachine struct {
-	L        *LedgerOnly
+	L        *LedgerOnly              // set for the ledger-only machine
+	Leg      func() *ledgerpkg.Ledger // current ledger instance
 	M        *LedgerModel
 	Ts       int64
 	Findings *FindingSet
@@ -151,10 +152,28 @@ func NewLedgerMachine(fs *FindingSet) (*LedgerMachine, error) {
 	}
 	m.Blocks = append(m.Blocks, g)
 	m.ByID[string(g.ID)] = 0
-	return &LedgerMachine{L: lo, M: m, Ts: 1000, Findings: fs}, nil
+	lm := &LedgerMachine{L: lo, M: m, Ts: 1000, Findings: fs}
+	lm.Leg = func() *ledgerpkg.Ledger { return lm.L.Ledger }
+	return lm, nil
 }
 
-func (lm *LedgerMachine) Close() { lm.L.Destroy() }
+// NewLedgerMachineOn couples the model with the ledger of an existing node (genesis = root).
+func NewLedgerMachineOn(leg func() *ledgerpkg.Ledger, root *pb.InternalBlock, fs *FindingSet) *LedgerMachine {
+	m := &LedgerModel{ByID: map[string]int{}, TxIDs: map[string][]byte{}}
+	g := &MBlock{Idx: 0, Label: "g", ID: root.Blockid, Parent: -1, Height: 0, Stored: true, Block: CloneBlock(root)}
+	for _, t := range root.Transactions {
+		g.TxIDs = append(g.TxIDs, t.Txid)
+	}
+	m.Blocks = append(m.Blocks, g)
+	m.ByID[string(g.ID)] = 0
+	return &LedgerMachine{Leg: leg, M: m, Ts: 1000, Findings: fs}
+}
+
+func (lm *LedgerMachine) Close() {
+	if lm.L != nil {
+		lm.L.Destroy()
+	}
+}
 
 func (lm *LedgerMachine) txByLabel(label string) *pb.Transaction {
 	tx := DummyTx(label)
@@ -168,7 +187,7 @@ func (lm *LedgerMachine) txByLabel(label string) *pb.Transaction {
 // Apply executes one operation on ledger and model and checks the operation's own result.
 func (lm *LedgerMachine) Apply(op LOp) error {
 	m := lm.M
-	leg := lm.L.Ledger
+	leg := lm.Leg()
 	switch op.Op {
 	case "confirm":
 		lm.Ts++
@@ -191,91 +210,8 @@ func (lm *LedgerMachine) Apply(op LOp) error {
 		if err != nil {
 			return err
 		}
-		if _, dup := m.ByID[string(blk.Blockid)]; dup {
-			return nil // identical block generated twice: nothing to do
-		}
-		mb := &MBlock{Idx: len(m.Blocks), Label: op.Label, ID: blk.Blockid, Parent: op.Parent, Height: height, Block: CloneBlock(blk)}
-		for _, t := range txs {
-			mb.TxIDs = append(mb.TxIDs, t.Txid)
-		}
-		// expectation from the model
-		expectOK := true
-		why := ""
-		oldTip := m.Tip
-		extends := op.Parent == oldTip
-		switches := false
-		if op.Parent < 0 || !m.Blocks[op.Parent].Stored {
-			expectOK, why = false, "parent not stored"
-		} else if op.Kind == "twocb" {
-			expectOK, why = false, "two coinbase transactions"
-		} else {
-			switches = !extends && height > m.Blocks[oldTip].Height
-			if extends || switches {
-				// duplicated transaction at or below the fork point on the main chain
-				fork := oldTip
-				if switches {
-					fork = m.LCA(oldTip, op.Parent)
-				}
-				for j := fork; j >= 0 && expectOK; j = m.Blocks[j].Parent {
-					for _, t := range mb.TxIDs {
-						if m.containsTx(j, t) {
-							expectOK, why = false, "transaction duplicated on the main chain at or below the fork point"
-							break
-						}
-					}
-				}
-			}
-		}
-		mb.Stored = false
-		m.Blocks = append(m.Blocks, mb)
-		m.ByID[string(mb.ID)] = mb.Idx
-		before := lm.observe()
-		st := leg.ConfirmBlock(CloneBlock(blk), false)
-		if st.Succ != expectOK {
-			return fmt.Errorf("ConfirmBlock(%s on %s) Succ=%v err=%v, model expects %v (%s)", op.Label, lm.label(op.Parent), st.Succ, st.Error, expectOK, why)
-		}
-		if !st.Succ {
-			lm.Rejected++
-			if why == "transaction duplicated on the main chain at or below the fork point" && st.Error != ledgerpkg.ErrTxDuplicated {
-				return fmt.Errorf("ConfirmBlock(%s): expected ErrTxDuplicated, got %v", op.Label, st.Error)
-			}
-			after := lm.observe()
-			if d := DiffObs(before, after); d != "" {
-				return fmt.Errorf("rejected block %s (%s) changed observable ledger state: %s", op.Label, why, d)
-			}
-			return nil
-		}
-		mb.Stored = true
-		if extends || switches {
-			if switches {
-				lm.Reorgs++
-				// a shared transaction changes its block?
-				fork := m.LCA(oldTip, op.Parent)
-				oldTx := map[string]bool{}
-				for j := oldTip; j != fork; j = m.Blocks[j].Parent {
-					for _, t := range m.Blocks[j].TxIDs {
-						oldTx[string(t)] = true
-					}
-				}
-				for j := mb.Idx; j != fork; j = m.Blocks[j].Parent {
-					for _, t := range m.Blocks[j].TxIDs {
-						if oldTx[string(t)] {
-							lm.SharedMoved++
-						}
-					}
-				}
-			}
-			m.Tip = mb.Idx
-		}
-		if st.TrunkSwitch != switches {
-			return fmt.Errorf("ConfirmBlock(%s): TrunkSwitch=%v, model %v", op.Label, st.TrunkSwitch, switches)
-		}
-		if st.Orphan != (!extends && !switches) {
-			return fmt.Errorf("ConfirmBlock(%s): Orphan=%v, model %v", op.Label, st.Orphan, !extends && !switches)
-		}
-		if st.Split != !extends {
-			return fmt.Errorf("ConfirmBlock(%s): Split=%v, model %v", op.Label, st.Split, !extends)
-		}
+		_, err = lm.ConfirmPrepared(op.Label, op.Parent, blk, op.Kind == "twocb")
+		return err
 	case "resubmit":
 		// caller-level duplicate: miner.trySyncBlock / downloadMissBlock skip blocks the ledger has
 		b := m.Blocks[op.Target]
@@ -308,6 +244,103 @@ func (lm *LedgerMachine) Apply(op LOp) error {
 	return nil
 }
 
+// ConfirmPrepared submits a prepared block to the ledger and checks the outcome against the model.
+// parent is the model index of the parent (-1: unknown). It returns whether the block was stored.
+func (lm *LedgerMachine) ConfirmPrepared(label string, parent int, blk *pb.InternalBlock, twoCoinbase bool) (bool, error) {
+	m := lm.M
+	leg := lm.Leg()
+	if _, dup := m.ByID[string(blk.Blockid)]; dup {
+		return false, nil // identical block generated twice: nothing to do
+	}
+	height := int64(7)
+	if parent >= 0 {
+		height = m.Blocks[parent].Height + 1
+	}
+	mb := &MBlock{Idx: len(m.Blocks), Label: label, ID: blk.Blockid, Parent: parent, Height: height, Block: CloneBlock(blk)}
+	for _, t := range blk.Transactions {
+		mb.TxIDs = append(mb.TxIDs, t.Txid)
+	}
+	// expectation from the model
+	expectOK := true
+	why := ""
+	oldTip := m.Tip
+	extends := parent == oldTip
+	switches := false
+	if parent < 0 || !m.Blocks[parent].Stored {
+		expectOK, why = false, "parent not stored"
+	} else if twoCoinbase {
+		expectOK, why = false, "two coinbase transactions"
+	} else {
+		switches = !extends && height > m.Blocks[oldTip].Height
+		if extends || switches {
+			// duplicated transaction at or below the fork point on the main chain
+			fork := oldTip
+			if switches {
+				fork = m.LCA(oldTip, parent)
+			}
+			for j := fork; j >= 0 && expectOK; j = m.Blocks[j].Parent {
+				for _, t := range mb.TxIDs {
+					if m.containsTx(j, t) {
+						expectOK, why = false, "transaction duplicated on the main chain at or below the fork point"
+						break
+					}
+				}
+			}
+		}
+	}
+	mb.Stored = false
+	m.Blocks = append(m.Blocks, mb)
+	m.ByID[string(mb.ID)] = mb.Idx
+	before := lm.observe()
+	st := leg.ConfirmBlock(CloneBlock(blk), false)
+	if st.Succ != expectOK {
+		return st.Succ, fmt.Errorf("ConfirmBlock(%s on %s) Succ=%v err=%v, model expects %v (%s)", label, lm.label(parent), st.Succ, st.Error, expectOK, why)
+	}
+	if !st.Succ {
+		lm.Rejected++
+		if why == "transaction duplicated on the main chain at or below the fork point" && st.Error != ledgerpkg.ErrTxDuplicated {
+			return false, fmt.Errorf("ConfirmBlock(%s): expected ErrTxDuplicated, got %v", label, st.Error)
+		}
+		after := lm.observe()
+		if d := DiffObs(before, after); d != "" {
+			return false, fmt.Errorf("rejected block %s (%s) changed observable ledger state: %s", label, why, d)
+		}
+		return false, nil
+	}
+	mb.Stored = true
+	if extends || switches {
+		if switches {
+			lm.Reorgs++
+			// a shared transaction changes its block?
+			fork := m.LCA(oldTip, parent)
+			oldTx := map[string]bool{}
+			for j := oldTip; j != fork; j = m.Blocks[j].Parent {
+				for _, t := range m.Blocks[j].TxIDs {
+					oldTx[string(t)] = true
+				}
+			}
+			for j := mb.Idx; j != fork; j = m.Blocks[j].Parent {
+				for _, t := range m.Blocks[j].TxIDs {
+					if oldTx[string(t)] {
+						lm.SharedMoved++
+					}
+				}
+			}
+		}
+		m.Tip = mb.Idx
+	}
+	if st.TrunkSwitch != switches {
+		return true, fmt.Errorf("ConfirmBlock(%s): TrunkSwitch=%v, model %v", label, st.TrunkSwitch, switches)
+	}
+	if st.Orphan != (!extends && !switches) {
+		return true, fmt.Errorf("ConfirmBlock(%s): Orphan=%v, model %v", label, st.Orphan, !extends && !switches)
+	}
+	if st.Split != !extends {
+		return true, fmt.Errorf("ConfirmBlock(%s): Split=%v, model %v", label, st.Split, !extends)
+	}
+	return true, nil
+}
+
 func (lm *LedgerMachine) label(i int) string {
 	if i < 0 {
 		return "<unknown>"
@@ -317,7 +350,7 @@ func (lm *LedgerMachine) label(i int) string {
 
 // observe dumps every ledger query over the known universe (for before/after comparisons).
 func (lm *LedgerMachine) observe() map[string]string {
-	return ObserveLedger(lm.L.Ledger, lm.M)
+	return ObserveLedger(lm.Leg(), lm.M)
 }
 
 // ObserveLedger dumps the answers of every ledger query over the universe known to the model.
@@ -416,7 +449,7 @@ func DiffObs(a, b map[string]string) string {
 
 // CheckInvariant compares every query of the C04 statement with the model.
 func (lm *LedgerMachine) CheckInvariant() error {
-	return CheckLedgerAgainstModel(lm.L.Ledger, lm.M, lm.Findings)
+	return CheckLedgerAgainstModel(lm.Leg(), lm.M, lm.Findings)
 }
 
 // CheckLedgerAgainstModel is the C04 oracle, usable on any ledger instance (live, reopened, image).
@@ -580,7 +613,7 @@ func CheckLedgerAgainstModel(leg *ledgerpkg.Ledger, m *LedgerModel, fs *FindingS
 // CheckPaths compares FindUndoAndTodoBlocks for a pair with the model's LCA paths.
 func (lm *LedgerMachine) CheckPaths(a, b int) error {
 	m := lm.M
-	undo, todo, err := lm.L.Ledger.FindUndoAndTodoBlocks(m.Blocks[a].ID, m.Blocks[b].ID)
+	undo, todo, err := lm.Leg().FindUndoAndTodoBlocks(m.Blocks[a].ID, m.Blocks[b].ID)
 	if err != nil {
 		return fmt.Errorf("FindUndoAndTodoBlocks(%s,%s): %v", m.Blocks[a].Label, m.Blocks[b].Label, err)
 	}
